@@ -476,6 +476,14 @@ WsdlCases ==
                    Xsd("far.xsd", "Ufar", << <<"o", "Ufar">> >>,
                        << ElemI("GetFar", << El("farArg", B("string"), 1, "1") >>), ElemI("GetFarResponse", << El("farResult", B("int"), 1, "1") >>),
                           ElemI("SessionHeader", << El("session", B("string"), 1, "1") >>) >>) >>,
+   \* the inline schema has its own target namespace (Uthird), different from that of the definitions (Usvc)
+   inline_tns |-> << Wsdl(<< ElemI("GetItem", << El("itemId", B("string"), 1, "1"), El("subjectMember", T("ty", "OtherType"), 0, "1") >>),
+                             ElemI("GetItemResponse", << El("itemName", B("string"), 1, "1") >>),
+                             Cx("OtherType", None, << El("otherValue", B("string"), 1, "1") >>, <<>>) >>, << <<"ty", "Uthird">> >>,
+                  Common(<< [n |-> "GetItem", action |-> "act", input |-> [msg |-> "request", parts |-> "parameters", headers |-> <<>>],
+                             output |-> [msg |-> "response", parts |-> "parameters", headers |-> <<>>]] >>,
+                         << Msg("request", << Part("parameters", "ty", "GetItem") >>), Msg("response", << Part("parameters", "ty", "GetItemResponse") >>) >>))
+                    @@ [stns |-> "Uthird"] >>,
    \* body and header elements of one message in different namespaces, and the response in a namespace the request never uses
    mixed_ns |-> << Wsdl(<< Imp("Ufar", "far.xsd"), ElemI("GetItem", << El("itemId", B("string"), 1, "1") >>),
                            ElemI("AuthHeader", << El("token", B("string"), 1, "1") >>) >>, << <<"o", "Ufar">> >>,
